@@ -48,6 +48,17 @@ func bucketRoots(r *Run, v ssa.Value) map[ssa.Value]bool {
 				return // nil
 			}
 			out[v] = true
+		case *ssa.Call:
+			// an atomic load of a link word inside a bucket (typed atomics make every read of the link one, also under the
+			// lock): derived from the bucket it was read from, like the plain load
+			if op, addr, ok := core.AtomicOp(x); ok && op == "Load" {
+				a := core.Addr(addr)
+				if a.Root != nil && a.Root != addr && isBucketOwner(r, a.Owner) {
+					walk(a.Root)
+					return
+				}
+			}
+			out[v] = true
 		default:
 			out[v] = true
 		}
@@ -244,6 +255,13 @@ func unpublishedAt(r *Run, f *ssa.Function, v ssa.Value, at ssa.Instruction, dep
 			}
 			return freshInfo{false, "result of a call that is not a fresh allocation"}
 		case *ssa.Call:
+			// an atomic load of a word of a container (the link of a bucket read through its typed-atomic method): fresh
+			// iff the container is, like the plain load above
+			if op, addr, isAt := core.AtomicOp(x); isAt && op == "Load" {
+				if a := core.Addr(addr); a.Root != nil && a.Root != addr {
+					return walk(a.Root)
+				}
+			}
 			cal := core.Callee(x)
 			for _, mm := range r.M.Maps {
 				if cal != nil && cal == mm.NewTable {
